@@ -221,82 +221,101 @@ def in_domain_text(s):
     """ASCII, or a whitespace character, or a non-letter non-digit symbol (DESIGN.md 2.2)"""
     return all(ord(c) < 128 or c.isspace() or not (c.isalnum() or c.upper() != c or c.lower() != c) for c in s)
 
-def ref_lex(src):
-    """-> (tokens [(kind, value, line)], number of lines).  kinds: name str int { } bad unspec"""
+def ref_strip(line):
+    q = 0
+    for i, c in enumerate(line):
+        if c == '"': q += 1
+        elif c == '%' and q % 2 == 0:
+            return line[:i]
+    return line
+
+def ref_lex(src, multiline=False):
+    """-> (tokens [(kind, value, line, line feeds inside earlier string tokens)], number of lines).
+    kinds: name str int { } bad unspec.  Default reading (BibTeX's): a string literal ends on its line.
+    multiline=True: the comment-stripped lines are joined and a string literal runs to the next double quote,
+    wherever that is."""
     lines = re.split('\r\n|\n|\r', src)
     toks = []
-    for ln, line in enumerate(lines, 1):
+    if multiline:
+        text = '\n'.join(ref_strip(l) for l in lines)
+        chunks = [(text, 1)]
+    else:
+        chunks = [(l, k) for k, l in enumerate(lines, 1)]
+    sw = 0
+    for line, ln0 in chunks:
         i, n = 0, len(line)
+        ln = ln0
         while i < n:
             c = line[i]
-            if c.isspace():
+            if c == '\n':
+                ln += 1; i += 1
+            elif c.isspace():
                 i += 1
-            elif c == '%':
+            elif c == '%' and not multiline:
                 break
             elif c in '{}':
-                toks.append((c, c, ln)); i += 1
+                toks.append((c, c, ln, sw)); i += 1
             elif c == '"':
                 j = line.find('"', i + 1)
                 if j < 0:
-                    later = any('"' in l for l in lines[ln:])
-                    toks.append(('unspec' if later else 'bad', line[i:], ln))
+                    later = (not multiline) and any('"' in l for l in lines[ln:])
+                    toks.append(('unspec' if later else 'bad', 'open string', ln, sw))
                     return toks, len(lines)
-                toks.append(('str', line[i + 1:j], ln)); i = j + 1
+                toks.append(('str', line[i + 1:j], ln, sw))
+                k = line.count('\n', i, j); ln += k; sw += k
+                i = j + 1
             elif c == '#':
                 m = INT_RE.match(line, i)
                 if not m:
-                    toks.append(('bad', line[i:], ln))
+                    toks.append(('bad', line[i:], ln, sw))
                     return toks, len(lines)
                 if m.end() - i > 4000:
-                    toks.append(('unspec', 'integer literal beyond the conversion limit of CPython', ln))
+                    toks.append(('unspec', 'integer literal beyond the conversion limit of CPython', ln, sw))
                     return toks, len(lines)
-                toks.append(('int', int(m.group()[1:]), ln)); i = m.end()
+                toks.append(('int', int(m.group()[1:]), ln, sw)); i = m.end()
             else:
                 j = i
-                while j < n and not line[j].isspace() and line[j] not in '#"{}%':
+                while j < n and not line[j].isspace() and line[j] not in '#"{}' and (multiline or line[j] != '%'):
                     j += 1
-                toks.append(('name', line[i:j], ln)); i = j
+                toks.append(('name', line[i:j], ln, sw)); i = j
     return toks, len(lines)
 
-def ref_parse(src, lenient=False):
-    """('ok', program) | ('bad', lo, hi, kind) | ('unspec', why).  lenient: a command may be followed by
-    fewer groups than its arity when the next token is a name (what finding F21 is about)."""
+def ref_parse(src, multiline=False):
+    """('ok', program) | ('bad', lo, hi, kind, swallowed) | ('unspec', why, line)"""
     if any(c in EXOTIC_BREAKS for c in src):
-        return ('unspec', 'line-break characters other than LF / CR / CRLF')
+        return ('unspec', 'line-break characters other than LF / CR / CRLF', 0)
     if not in_domain_text(src):
-        return ('unspec', 'non-ASCII letters or digits')
-    toks, nlines = ref_lex(src)
+        return ('unspec', 'non-ASCII letters or digits', 0)
+    toks, nlines = ref_lex(src, multiline)
     pos = 0
     prog = []
     last = 1
+    total_sw = toks[-1][3] if toks else 0
     def tokerr(t):
         if t[0] == 'unspec':
-            return ('unspec', t[1])
-        return ('bad', t[2], t[2], 'bad token' if t[0] == 'bad' else 'unexpected token')
+            return ('unspec', t[1], t[2])
+        return ('bad', t[2], t[2], 'bad token' if t[0] == 'bad' else 'unexpected token', t[3])
     while pos < len(toks):
         t = toks[pos]
         if t[0] != 'name':
-            return tokerr(t) if t[0] in ('unspec', 'bad') else ('bad', t[2], t[2], 'command expected')
+            return tokerr(t) if t[0] in ('unspec', 'bad') else ('bad', t[2], t[2], 'command expected', t[3])
         if ascii_upper(t[1]) not in ARITY:
-            return ('bad', t[2], t[2], 'unknown command')
+            return ('bad', t[2], t[2], 'unknown command', t[3])
         last = t[2]; pos += 1
         groups = []
         for _ in range(ARITY[ascii_upper(t[1])]):
             if pos >= len(toks):
-                return ('bad', last, nlines, 'eof')
+                return ('bad', last, nlines, 'eof', total_sw)
             u = toks[pos]
             if u[0] != '{':
                 if u[0] == 'unspec':
                     return tokerr(u)
-                if lenient and u[0] == 'name':
-                    break
-                return ('bad', u[2], u[2], 'short-args' if u[0] == 'name' else 'group expected')
+                return ('bad', u[2], u[2], 'group expected', u[3])
             last = u[2]; pos += 1
             stack = [[]]
-            depth = 1
             while True:
                 if pos >= len(toks):
-                    return ('bad', last, nlines, 'eof')
+                    return ('bad', last, nlines, 'eof', total_sw)
                 u = toks[pos]
                 if u[0] in ('bad', 'unspec'):
                     return tokerr(u)
@@ -304,7 +323,7 @@ def ref_parse(src, lenient=False):
                 if u[0] == '{':
                     stack.append([])
                     if len(stack) > 150:
-                        return ('unspec', 'nesting deeper than 150')
+                        return ('unspec', 'nesting deeper than 150', u[2])
                 elif u[0] == '}':
                     done = stack.pop()
                     if not stack:
@@ -322,36 +341,40 @@ def upper_names(prog):
 
 def judge(src, out, exact_names_of=None):
     """the property on one parse outcome -> None or a message"""
+    r = ref_parse(src)
     if out == [2] or (isinstance(out, list) and out[:1] == [2]):
-        r = ref_parse(src)
         if r[0] == 'unspec' and ('conversion limit' in r[1] or 'deeper' in r[1]):
             return None
         return 'a foreign (non-pybtex) exception escaped the parser'
-    r = ref_parse(src)
+    open_line = None
     if r[0] == 'unspec':
-        return None
+        if r[1] != 'open string':
+            return None
+        # a string literal left open at a line end, and a double quote further down: BibTeX's reading puts the
+        # error on that line; pybtex lets the literal run on.  Either line is accepted; nothing else is.
+        open_line = r[2]
+        r = ref_parse(src, multiline=True)
+        if r[0] == 'unspec':
+            return None
+        if r[0] == 'ok':
+            return None
     if r[0] == 'ok':
         if out[0] != 0:
             return 'well-formed source rejected (line %s): expected %d commands' % (out[2] if len(out) > 2 else '?', len(r[1]))
         if upper_names(out[1]) != upper_names(r[1]):
             return 'parsed program differs from the program the source spells'
         return None
-    _, lo, hi, kind = r
-    if out[0] == 1 and out[1] in (1, 2, 3) and lo <= out[2] <= hi:
-        return None
-    if kind == 'short-args':
-        # the one listed finding (F21): the code goes on as if the command had been complete
-        l = ref_parse(src, lenient=True)
-        if l[0] == 'unspec':
-            return None
-        if (l[0] == 'ok' and out[0] == 0 and upper_names(l[1]) == upper_names(out[1])) or \
-           (l[0] == 'bad' and out[0] == 1 and out[1] in (1, 2, 3) and l[1] <= out[2] <= l[2]):
-            return 'F21-shape: a command followed by fewer groups than its arity (line %d) is accepted silently%s' % (
-                lo, '' if out[0] == 0 else '; a later error is reported instead (line %d)' % out[2])
+    _, lo, hi, kind, sw = r
     if out[0] == 0:
         return 'malformed source (%s, line %d) accepted without an error' % (kind, lo)
     if out[1] not in (1, 2, 3):
         return 'malformed source rejected, but not with a syntax error'
+    if lo <= out[2] <= hi or out[2] == open_line:
+        return None
+    if open_line is not None and sw > 0 and lo - sw <= out[2] <= hi - sw:
+        return ('F29-shape: the syntax error names line %d; the offending token is on line %s, %d line feed(s) inside '
+                'earlier string literals were not counted (the first string literal left open at a line end is on line %d)'
+                % (out[2], lo if lo == hi else '%d..%d' % (lo, hi), sw, open_line))
     return 'the syntax error names line %d, the offending token is on line %s' % (out[2], lo if lo == hi else '%d..%d' % (lo, hi))
 
 # ---- well-formedness of (program, layout) for the round trip (mirror of wf_program / gaps_ok)
@@ -415,11 +438,7 @@ def oracle(fn, arg, out):
         line = S(arg[0])
         if out[0] != 0:
             return 'strip_comment raised'
-        q = 0; exp = line
-        for i, c in enumerate(line):
-            if c == '"': q += 1
-            elif c == '%' and q % 2 == 0:
-                exp = line[:i]; break
+        exp = ref_strip(line)
         if S(out[1]) != exp:
             return 'strip_comment(%r) = %r, the comment starts %s' % (line, S(out[1]), 'at %d' % len(exp) if exp != line else 'nowhere')
         return None
@@ -451,15 +470,17 @@ def oracle(fn, arg, out):
         return judge(src, res)
     return None
 
-def _f21(kind, fn, arg, detail):
-    if kind != 'oracle' or not isinstance(detail, str) or not detail.startswith('F21-shape'):
+def _f29(kind, fn, arg, detail):
+    """F29: the reported line is too small by exactly the number of line feeds inside string literals that run over
+    a line end (Scanner.get_token does not count them)"""
+    if kind != 'oracle' or not isinstance(detail, str) or not detail.startswith('F29-shape'):
         return False
     if fn not in (2, 3, 4, 5, 9):
         return False
     out = FUNCS[fn][1](arg)
     m = oracle(fn, arg, out)
-    return bool(m) and m.startswith('F21-shape')
-KNOWN_SIGNATURES = {'F21': _f21}
+    return bool(m) and m.startswith('F29-shape')
+KNOWN_SIGNATURES = {'F29': _f29}
 
 def replay_known(finding):
     pin = finding.get('pinned')
@@ -467,7 +488,7 @@ def replay_known(finding):
         return None
     out = FUNCS[pin['fn']][1](pin['arg'])
     m = oracle(pin['fn'], pin['arg'], out)
-    if m and m.startswith('F21-shape'):
+    if m and m.startswith(finding['id'] + '-shape'):
         return 'still reproduces: %s' % m
     return None
 
@@ -498,7 +519,7 @@ ASSUMPTIONS = ['letters and digits are ASCII (DESIGN.md 2.2): str.upper of a non
                'function bodies nest at most 150 deep (the recursion of parse_group is unguarded; CPython raises RecursionError between 500 and 1000 levels)']
 PARTIAL = ['parse_stream / parse_file agree with parse_string: proved on printed sources (entry_points_agree); on arbitrary sources correspondence (fn 3, 4, 9) and the oracle only',
            'error_names_line assumes that no string literal is left open at a line end (line feeds inside a string token are not counted by the scanner)',
-           'every malformed source is rejected: refuted (finding F21); proved in the form accepted_is_printed + arity_respected_partial + last_command_complete',
+           'the reported line is wrong after a string literal that runs over a line end (finding F29, known)',
            'non-ASCII letters/digits, integer literals beyond 4300 digits and nesting beyond 150 levels are outside the claimed domain']
 
 UNITS = ['READ', 'sort', 'EXECUTE', 'MACRO', 'foo', '{', '}', '#1', '"s"', "'q", ' ', '\n', '%c"\n']
@@ -627,8 +648,11 @@ def pool_groups():
 UNIFORM = [' ', '\n', '\t', '\r\n', '', ' % c"%{\n', '\r', '\n\n ', '\xa0']
 
 PINNED_SRC = [
-    'FUNCTION {a}\nREAD',                       # F21
+    'FUNCTION {a}\nREAD',                       # F21 (fixed by 135237f)
     'ENTRY {a}\nINTEGERS {b}\n',                # F21
+    'EXECUTE {"a\nb" c}\n#',                     # F29
+    'EXECUTE {"a\n\n\nb" "c\nd"}\n\nfoo',         # F29
+    'EXECUTE {"a\nb"}\n{',                       # F29
     'ENTRY {a}{b}', 'ENTRY {a}{b}\n\n\n', 'read sort', 'foo', '\n\n{', 'EXECUTE {"a\nb" c}\n#',
     "EXECUTE {#-0 #007 'a ' a%b\n}", 'EXECUTE{x}%c', 'EXECUTE{x}%c\n', 'READ%', 'READ %"\nSORT',
     'FUNCTION {f}{ "100% sure" % real comment " { \n }', 'FUNCTION{f}{a#1}', 'FUNCTION{f}{a#b}', 'FUNCTION{f}{#1#2 #-3"s"t}',
